@@ -119,7 +119,7 @@ def vocabulary(ck, cases):
 
 def run(ck):
     thorough = ck.tier == "thorough"
-    ck.tlc("js", "Printer", "PrinterMC.cfg", label="P by itself: which reports the protocol allows; invariants", timeout=120)
+    ck.tlc("js", "Printer", "PrinterMC.cfg", label="P by itself: which reports the protocol allows; invariants", timeout=600)
     cases = ck.path("cases.ndjson")
     ck.tlc("js", "PrinterGen", "PrinterGen_thorough.cfg" if thorough else "PrinterGen_quick.cfg",
            label="generator: hazard scenarios (exhaustive)", env={"VERIF_CASES": cases}, timeout=1500, heap="8g")
